@@ -280,6 +280,53 @@ def iface_matrix(chk, quick):
     return len(valid), len(faulted)
 
 
+CYCLE_NAMES = ['d', 'outer', 'pick', 'zz', 'choice', 'alpha', 'item_or_group', 'q1', 'my_select', 'top', 'x9', 'holder_sel', 'u', 'anything',
+               'sel_a', 'sel_b', 'k', 'wrapper', 'container_item', 'omega', 'first', 'last', 'mid', 'n0']
+
+
+def cycle_matrix(chk, quick):
+    """Select cycles and subtype cycles beside / behind acyclic declarations, with the acyclic declaration (and the cycle members)
+    under many names: a control without the cycle must be accepted, the file with the cycle rejected, by all four tools."""
+    cases = []
+    names = CYCLE_NAMES if not quick else CYCLE_NAMES[:16]
+    for i, nm in enumerate(names):
+        a, b = ('ca%d' % i, 'cb%d' % i) if i % 2 else ('m_%s' % nm, 'n_%s' % nm)
+        ent = 'ENTITY e;\n  v : INTEGER;\nEND_ENTITY;\n'
+        sel = 'TYPE %s = SELECT (%s, %s, e);\nEND_TYPE;\nTYPE %s = SELECT (%s);\nEND_TYPE;\nTYPE %s = SELECT (%s);\nEND_TYPE;\n'
+        for order in (0, 1):
+            decl = sel % (nm, a, b, a, '%s', b, '%s')
+            if order:       # the outer select declared after the cycle members
+                parts = decl.split('END_TYPE;\n')
+                decl = 'END_TYPE;\n'.join(parts[1:3] + parts[:1]) + 'END_TYPE;\n'
+            good = 'SCHEMA s;\n' + ent + decl % ('e', 'e') + 'END_SCHEMA;\n'
+            bad = 'SCHEMA s;\n' + ent + decl % (b + ', e', a + ', e') + 'END_SCHEMA;\n'
+            cases.append(('select cycle beside an acyclic select that lists its members', good, bad))
+            # the same in a schema made of types only (entities, functions and constants restart the checkers' visit marks)
+            lbl = 'TYPE lbl = STRING;\nEND_TYPE;\nTYPE len = REAL;\nEND_TYPE;\n'
+            tdecl = decl.replace(', e)', ', lbl)')
+            good = 'SCHEMA s;\n' + lbl + tdecl % ('lbl', 'len') + 'END_SCHEMA;\n'
+            bad = 'SCHEMA s;\n' + lbl + tdecl % (b + ', lbl', a + ', len') + 'END_SCHEMA;\n'
+            cases.append(('select cycle beside an acyclic select that lists its members, schema of types only', good, bad))
+        sub = ('ENTITY %s;\n  v : INTEGER;\nEND_ENTITY;\nENTITY %s SUBTYPE OF (%s%s);\nEND_ENTITY;\nENTITY %s SUBTYPE OF (%s);\nEND_ENTITY;\n'
+               'ENTITY t_%s SUBTYPE OF (%s);\nEND_ENTITY;\n')
+        good = 'SCHEMA s;\n' + sub % (nm, a, nm, '', b, a, nm, b) + 'END_SCHEMA;\n'
+        bad = 'SCHEMA s;\n' + sub % (nm, a, nm, ', ' + b, b, a, nm, b) + 'END_SCHEMA;\n'
+        cases.append(('subtype cycle below an acyclic supertype', good, bad))
+
+    def work(c):
+        cls, good, bad = c
+        return c, run_all(good), run_all(bad)
+    for (cls, good, bad), tg, tb in run.pmap(work, cases):
+        chk.ev(len(tg) + len(tb))
+        chk.seen('cycle matrix', cls, hash(bad) % 97)
+        for key, what in judge_valid(tg, 'control of: ' + cls):
+            chk.violation(key, what, {'in.exp': good}, dict(family='cycle matrix'))
+        for key, what in judge_fault(tb, cls):
+            chk.violation(key, what, {'in.exp': bad}, dict(family='cycle matrix'))
+    chk.count('cycle matrix cases', len(cases))
+    return len(cases)
+
+
 def main(chk):
     quick = chk.tier == 'quick'
     n_valid, n_multi = (40, 10) if quick else (600, 150)
@@ -351,6 +398,10 @@ def main(chk):
 
     # ---- multi-schema interface matrix: shapes x link styles x item kinds x naming permutations
     n_ifv, n_iff = iface_matrix(chk, quick)
+
+    # ---- cycles that are reached through (or stand beside) acyclic declarations of the same scope, under many namings: the
+    # checkers walk the declarations in dictionary (hash) order and keep visited marks
+    n_cyc = cycle_matrix(chk, quick)
 
     # ---- probes
     name, text = PROBE_VALID_NO_ATTR
